@@ -157,6 +157,24 @@ impl Future for ResFuture {
   }
 }
 
+/// what `from_iter` is given: starting the iteration is itself logged, so a
+/// pipeline that calls `into_iter()` while it is built (or once for several
+/// subscriptions) is visible
+#[derive(Clone)]
+pub struct CountIterable {
+  pub id: u32,
+  pub cap: usize,
+  pub log: Log,
+}
+impl IntoIterator for CountIterable {
+  type Item = V;
+  type IntoIter = CountIter;
+  fn into_iter(self) -> CountIter {
+    self.log.mark(self.id, "into_iter", 0);
+    CountIter { id: self.id, cap: self.cap, i: 0, log: self.log }
+  }
+}
+
 /// counting iterator 0,1,2.. capped at `cap` pulls; logs every pull
 #[derive(Clone)]
 pub struct CountIter {
